@@ -3,7 +3,7 @@
 Extracting a block of code into a private helper (or a closure called on the spot) does not change behaviour; the
 rule templates, however, look at one function body at a time.  This pass splices the body of every *non-anchor*
 crate-local private function into its callers, so that a rule sees the same statements whether or not they were
-factored out.  Anchors -- functions the rules address by name -- and public API functions are never inlined: they
+factored out.  Anchors -- private functions with a role the rules model separately, found by role -- and public API functions are never inlined: they
 keep their identity in the call graph.
 
 Splicing call `dest = g(a1..an) -> bb_t` in block b of f:
@@ -15,16 +15,57 @@ Unwind edges are not modelled anywhere in the fact base, so there is nothing els
 """
 import copy
 
-# private functions that rules address by name (confirmed by reading the rule modules); every other
-# crate-local function with restricted visibility is a helper and is spliced into its callers
-ANCHORS = {
-    "evaluator::flop_exhaustive::FlopExhaustiveEvaluatorIterator::new",
-    "evaluator::flop_exhaustive::FlopExhaustiveEvaluatorIterator::next_deal",
-    "evaluator::made_hand::find_flush_suit",
-    "evaluator::made_hand::hash_for_flush",
-    "evaluator::made_hand::hash_for_rainbow",
-    "hand_range::hand_range_token::parse_probability",
-}
+# Anchors: private functions that play a role the rule modules model as a function of its own.  They are found by role
+# (which public trait method calls them, with which signature), never by name, so renaming one does not turn it into a
+# "helper"; every other crate-local function with restricted visibility is a helper and is spliced into its callers.
+EVAL = "evaluator::flop_exhaustive::FlopExhaustiveEvaluator"
+MADE_HAND = "evaluator::made_hand::MadeHand"
+TOKEN = "hand_range::hand_range_token::HandRangeToken"
+
+
+def _callees(F, fn):
+    out = []
+    for _bi, t in fn.calls():
+        c = t["callee"]
+        q = c.get("resolved") or c.get("path")
+        g = F.fns.get(q)
+        if g is not None and g.d.get("vis") == "restricted" and g.kind in ("Fn", "AssocFn"):
+            out.append(g)
+    return out
+
+
+def _impl_method(F, trait_prefix, self_ty, name):
+    for f in F.fns.values():
+        im = f.impl
+        if im and f.kind == "AssocFn" and im["self_ty"] == self_ty and (im["trait"] or "").startswith(trait_prefix) \
+                and f.path.rsplit("::", 1)[-1] == name:
+            return f
+    return None
+
+
+def anchor_paths(F):
+    anchors = set()
+    into_iter = _impl_method(F, "std::iter::IntoIterator", EVAL, "into_iter")
+    if into_iter is not None:
+        iter_ty = into_iter.local_ty(0)
+        # the iterator's constructor
+        anchors |= {g.path for g in _callees(F, into_iter) if g.local_ty(0) == iter_ty}
+        nxt = _impl_method(F, "std::iter::Iterator", iter_ty, "next")
+        if nxt is not None:
+            # the worker producing one deal: takes the iterator mutably, returns the showdown
+            anchors |= {g.path for g in _callees(F, nxt) if g.arg_count >= 1 and g.local_ty(1) == "&mut " + iter_ty
+                        and "Showdown" in g.local_ty(0)}
+    conv = _impl_method(F, "std::convert::From<[card::card::Card; 7]>", MADE_HAND, "from")
+    if conv is not None:
+        # flush finder and the two hash functions
+        anchors |= {g.path for g in _callees(F, conv)}
+    parse = _impl_method(F, "std::str::FromStr", TOKEN, "from_str")
+    if parse is not None:
+        # the weight parser
+        anchors |= {g.path for g in _callees(F, parse) if g.local_ty(0) == "f32"}
+    return anchors
+
+
 MAX_BLOCKS = 400
 MAX_DEPTH = 4
 
@@ -64,8 +105,9 @@ def _shift_term(term, off, boff, poff):
 
 def helper_paths(F):
     """crate-local functions that may be spliced: restricted visibility, not an anchor, not (mutually) recursive"""
+    anchors = anchor_paths(F)
     cand = {p for p, f in F.fns.items()
-            if f.kind in ("Fn", "AssocFn") and f.d.get("vis") == "restricted" and p not in ANCHORS
+            if f.kind in ("Fn", "AssocFn") and f.d.get("vis") == "restricted" and p not in anchors
             and len(f.blocks) <= MAX_BLOCKS}
     # drop recursive helpers (direct or through other helpers)
     def callees(p):
